@@ -29,3 +29,6 @@ Proof. reflexivity. Qed.
 
 Lemma bridge_linear_runners : gen_linear_runners_are_transcribed = true.
 Proof. reflexivity. Qed.
+
+Lemma bridge_prepare_pinned : gen_prepare_is_pinned = true.
+Proof. reflexivity. Qed.
